@@ -50,17 +50,18 @@ theorem assignTpLt_len (m : MModel) (i : Ins) (r : Compose.Result) (h : assignTp
 theorem usedMask_len (ports : List Txt) (u : Option (List Y)) : (Glue.usedMask ports u).length = ports.length := by
   simp [Glue.usedMask]
 
-theorem semOfStages_lens (m : Model) (f : X86.Form) (s : Pipeline.Sem) (h : semOfStages m (stagesOf m f) = .ok s) :
+theorem semOfStages_lens (isa : Operand.Isa) (m : Model) (f : Glue.Form) (s : Pipeline.Sem)
+    (h : semOfStages m (stagesOf isa m f) = .ok s) :
     s.pressure.length = m.mm.ports.length ∧ s.used.length = m.mm.ports.length := by
   unfold semOfStages at h
-  cases ht : (stagesOf m f).tplt with
+  cases ht : (stagesOf isa m f).tplt with
   | error e => simp [ht] at h
   | ok t =>
     simp only [ht] at h
-    cases hc : (stagesOf m f).changes with
+    cases hc : (stagesOf isa m f).changes with
     | error e => simp [hc] at h
     | ok ch =>
-      cases hcp : (stagesOf m f).changesPost with
+      cases hcp : (stagesOf isa m f).changesPost with
       | error e => simp [hc, hcp] at h
       | ok chp =>
         simp only [hc, hcp, Except.ok.injEq] at h
@@ -68,22 +69,22 @@ theorem semOfStages_lens (m : Model) (f : X86.Form) (s : Pipeline.Sem) (h : semO
         exact ⟨assignTpLt_len m.mm _ t (by simpa [stagesOf] using ht), usedMask_len _ _⟩
 
 /-- a line of the file that carries no exception: one pressure value and one mask bit per port -/
-theorem lineOfText_lens (m : Model) (n : Nat) (t : Txt) (h : (lineOfText m n t).err = none) :
-    (semOf m.mm.ports.length (lineOfText m n t).pl).pressure.length = m.mm.ports.length ∧
-    (semOf m.mm.ports.length (lineOfText m n t).pl).used.length = m.mm.ports.length := by
+theorem lineOfText_lens (isa : Operand.Isa) (m : Model) (n : Nat) (t : Txt) (h : (lineOfText isa m n t).err = none) :
+    (semOf m.mm.ports.length (lineOfText isa m n t).pl).pressure.length = m.mm.ports.length ∧
+    (semOf m.mm.ports.length (lineOfText isa m n t).pl).used.length = m.mm.ports.length := by
   have hnoise : (noiseSem m.mm.ports.length).pressure.length = m.mm.ports.length ∧
       (noiseSem m.mm.ports.length).used.length = m.mm.ports.length := by simp [noiseSem, zeros]
   unfold lineOfText at h ⊢
-  cases hp : parseLine t with
+  cases hp : parseLineOf isa t with
   | err e => simp only [semOf, PLine.isInstr]; exact hnoise
   | ok f =>
     simp only [hp, lineOf] at h ⊢
-    cases hs : semOfStages m (stagesOf m f) with
+    cases hs : semOfStages m (stagesOf isa m f) with
     | error e => simp [hs] at h
     | ok s =>
       simp only [semOf]
       split
-      · exact semOfStages_lens m f s hs
+      · exact semOfStages_lens isa m f s hs
       · exact hnoise
 
 theorem numbered_mem_text (s i : Nat) (ls : List Txt) : ∀ p ∈ numbered s i ls, p.2 ∈ ls := by
